@@ -23,6 +23,7 @@ import (
 	"fmt"
 	"go/ast"
 	"go/token"
+	"math/big"
 	"path/filepath"
 	"strings"
 )
@@ -34,6 +35,7 @@ type codecTr struct {
 	pool  string            // name of the pooled variable (if any)
 	ret   string            // elem | optelem | bytes
 	named string            // named result
+	loopVar string          // inside a loop body: the only variable that may be assigned
 }
 
 func (t *codecTr) die(format string, args ...interface{}) {
@@ -67,6 +69,12 @@ func (t *codecTr) ex(e ast.Expr) string {
 				return "(" + id.Name + ".length : Int)"
 			}
 		}
+		if strings.HasSuffix(fn, ".IsZero") && len(x.Args) == 0 && t.kind[strings.TrimSuffix(fn, ".IsZero")] == "elem" {
+			return "(go_IsZero " + strings.TrimSuffix(fn, ".IsZero") + " = true)"
+		}
+		if strings.HasSuffix(fn, ".BitLen") && len(x.Args) == 0 && t.kind[strings.TrimSuffix(fn, ".BitLen")] == "big" {
+			return "(Big.bitLen " + strings.TrimSuffix(fn, ".BitLen") + ")"
+		}
 		if strings.HasSuffix(fn, ".Cmp") && len(x.Args) == 1 {
 			v := strings.TrimSuffix(fn, ".Cmp")
 			if t.kind[v] == "big" {
@@ -77,10 +85,67 @@ func (t *codecTr) ex(e ast.Expr) string {
 		ops := map[token.Token]string{token.ADD: "+", token.SUB: "-", token.MUL: "*", token.EQL: "=", token.NEQ: "≠",
 			token.LSS: "<", token.LEQ: "≤", token.GTR: ">", token.GEQ: "≥", token.LAND: "∧", token.LOR: "∨"}
 		if op, ok := ops[x.Op]; ok {
+			cmp := x.Op == token.EQL || x.Op == token.NEQ || x.Op == token.LSS || x.Op == token.LEQ || x.Op == token.GTR || x.Op == token.GEQ
+			if cmp && (t.isUint(x.X) || t.isUint(x.Y)) {
+				return "(" + t.ux(x.X) + " " + op + " " + t.ux(x.Y) + ")"
+			}
 			return "(" + t.ex(x.X) + " " + op + " " + t.ex(x.Y) + ")"
 		}
 	}
 	t.die("unsupported expression %s", exprStr(e))
+	return ""
+}
+
+// is this a uint64-typed expression (limb read, uint64 variable, `|` of such)?
+func (t *codecTr) isUint(e ast.Expr) bool {
+	switch x := e.(type) {
+	case *ast.ParenExpr:
+		return t.isUint(x.X)
+	case *ast.IndexExpr:
+		return t.kind[exprStr(x.X)] == "elem"
+	case *ast.Ident:
+		return t.kind[x.Name] == "uint"
+	case *ast.BinaryExpr:
+		if x.Op == token.OR {
+			return t.isUint(x.X) || t.isUint(x.Y)
+		}
+	case *ast.CallExpr:
+		fn := exprStr(x.Fun)
+		if strings.HasSuffix(fn, ".Bit") && t.kind[strings.TrimSuffix(fn, ".Bit")] == "big" {
+			return true
+		}
+	}
+	return false
+}
+
+// uint64-typed expressions: natural numbers below 2^64
+func (t *codecTr) ux(e ast.Expr) string {
+	switch x := e.(type) {
+	case *ast.ParenExpr:
+		return "(" + t.ux(x.X) + ")"
+	case *ast.BasicLit:
+		if x.Kind == token.INT {
+			return "(" + x.Value + " : Nat)"
+		}
+	case *ast.Ident:
+		if t.kind[x.Name] == "uint" {
+			return x.Name
+		}
+	case *ast.IndexExpr:
+		if t.kind[exprStr(x.X)] == "elem" {
+			return "(Big.limb " + exprStr(x.X) + " " + t.ex(x.Index) + ")"
+		}
+	case *ast.BinaryExpr:
+		if x.Op == token.OR {
+			return "(" + t.ux(x.X) + " ||| " + t.ux(x.Y) + ")"
+		}
+	case *ast.CallExpr:
+		fn := exprStr(x.Fun)
+		if strings.HasSuffix(fn, ".Bit") && len(x.Args) == 1 && t.kind[strings.TrimSuffix(fn, ".Bit")] == "big" {
+			return "(Big.bit " + strings.TrimSuffix(fn, ".Bit") + " " + t.ex(x.Args[0]) + ")"
+		}
+	}
+	t.die("unsupported uint64 expression %s", exprStr(e))
 	return ""
 }
 
@@ -90,6 +155,8 @@ func (t *codecTr) bigArg(e ast.Expr) string {
 	switch {
 	case s == "&_modulus":
 		return "codecModulus"
+	case s == "_bLegendreExponentElement":
+		return "legendreExponent"
 	case strings.HasPrefix(s, "&") && t.kind[s[1:]] == "big":
 		return s[1:]
 	case t.kind[s] == "big":
@@ -106,6 +173,16 @@ func (t *codecTr) returnStmt(ind string, r *ast.ReturnStmt) {
 			t.die("unexpected return %s", stmtText(r))
 		}
 		fmt.Fprintf(t.sb, "%s%s\n", ind, t.named)
+	case "bool":
+		if len(r.Results) != 1 {
+			t.die("unexpected return %s", stmtText(r))
+		}
+		fmt.Fprintf(t.sb, "%sdecide %s\n", ind, t.ex(r.Results[0]))
+	case "int":
+		if len(r.Results) != 1 {
+			t.die("unexpected return %s", stmtText(r))
+		}
+		fmt.Fprintf(t.sb, "%s%s\n", ind, t.ex(r.Results[0]))
 	case "elem":
 		if len(r.Results) != 1 {
 			t.die("unexpected return %s", stmtText(r))
@@ -151,6 +228,17 @@ func (t *codecTr) elemValue(e ast.Expr) string {
 				return "go_ToRegular " + recv
 			case m == "SetZero" && len(c.Args) == 0:
 				return "go_SetZero " + recv
+			case m == "SetOne" && len(c.Args) == 0:
+				return "go_SetOne " + recv
+			case m == "Set" && len(c.Args) == 1 && strings.HasPrefix(exprStr(c.Args[0]), "&") && t.kind[exprStr(c.Args[0])[1:]] == "elem":
+				return "go_Set " + recv + " " + exprStr(c.Args[0])[1:]
+			case m == "Square" && len(c.Args) == 1 && t.kind[strings.TrimPrefix(exprStr(c.Args[0]), "&")] == "elem":
+				a := strings.TrimPrefix(exprStr(c.Args[0]), "&")
+				return "mulG " + a + " " + a
+			case m == "Mul" && len(c.Args) == 2 && t.kind[strings.TrimPrefix(exprStr(c.Args[0]), "&")] == "elem" && t.kind[strings.TrimPrefix(exprStr(c.Args[1]), "&")] == "elem":
+				return "mulG " + strings.TrimPrefix(exprStr(c.Args[0]), "&") + " " + strings.TrimPrefix(exprStr(c.Args[1]), "&")
+			case m == "Exp" && len(c.Args) == 2 && t.kind[strings.TrimPrefix(exprStr(c.Args[0]), "*")] == "elem":
+				return "go_Exp " + recv + " " + strings.TrimPrefix(exprStr(c.Args[0]), "*") + " " + t.bigArg(c.Args[1])
 			case m == "Mul" && len(c.Args) == 2 && exprStr(c.Args[0]) == recv && exprStr(c.Args[1]) == "&rSquare":
 				return "mulG " + recv + " codecRSquare"
 			}
@@ -178,7 +266,39 @@ func (t *codecTr) block(ind string, stmts []ast.Stmt) {
 				fmt.Fprintf(t.sb, "%slet %s : Int := 0\n", ind, vs.Names[0].Name)
 				continue
 			}
+			if len(vs.Names) == 1 && len(vs.Values) == 0 && exprStr(vs.Type) == "Element" {
+				t.kind[vs.Names[0].Name] = "elem"
+				fmt.Fprintf(t.sb, "%slet %s : L4 := ⟨0, 0, 0, 0⟩\n", ind, vs.Names[0].Name)
+				continue
+			}
+			if len(vs.Names) == 1 && len(vs.Values) == 0 && exprStr(vs.Type) == "uint64" {
+				t.kind[vs.Names[0].Name] = "uint"
+				fmt.Fprintf(t.sb, "%slet %s : Nat := 0\n", ind, vs.Names[0].Name)
+				continue
+			}
 		case *ast.AssignStmt:
+			// _, b = bits.Sub64(a, LIT, c)
+			if len(x.Lhs) == 2 && len(x.Rhs) == 1 && exprStr(x.Lhs[0]) == "_" && t.kind[exprStr(x.Lhs[1])] == "uint" {
+				if c, ok := x.Rhs[0].(*ast.CallExpr); ok && exprStr(c.Fun) == "bits.Sub64" && len(c.Args) == 3 {
+					fmt.Fprintf(t.sb, "%slet %s := (sub64 %s %s %s).2\n", ind, exprStr(x.Lhs[1]), t.ux(c.Args[0]), t.ux(c.Args[1]), t.ux(c.Args[2]))
+					continue
+				}
+			}
+			// z[i] = x[i] / z[i] = LIT
+			if len(x.Lhs) == 1 && len(x.Rhs) == 1 && x.Tok == token.ASSIGN {
+				if ix, ok := x.Lhs[0].(*ast.IndexExpr); ok && t.kind[exprStr(ix.X)] == "elem" {
+					fmt.Fprintf(t.sb, "%slet %s := Big.setLimb %s %s %s\n", ind, exprStr(ix.X), exprStr(ix.X), t.ex(ix.Index), t.ux(x.Rhs[0]))
+					continue
+				}
+			}
+			// _z := *z
+			if len(x.Lhs) == 1 && len(x.Rhs) == 1 && x.Tok == token.DEFINE {
+				if st, ok := x.Rhs[0].(*ast.StarExpr); ok && t.kind[exprStr(st.X)] == "elem" {
+					t.kind[exprStr(x.Lhs[0])] = "elem"
+					fmt.Fprintf(t.sb, "%slet %s := %s\n", ind, exprStr(x.Lhs[0]), exprStr(st.X))
+					continue
+				}
+			}
 			if len(x.Lhs) == 1 && len(x.Rhs) == 1 {
 				lhs, rhs := exprStr(x.Lhs[0]), exprStr(x.Rhs[0])
 				switch {
@@ -240,7 +360,7 @@ func (t *codecTr) block(ind string, stmts []ast.Stmt) {
 			case t.kind[recv] == "big" && m == "Mod" && len(c.Args) == 2:
 				fmt.Fprintf(t.sb, "%slet %s := Big.mod %s %s\n", ind, recv, t.bigArg(c.Args[0]), t.bigArg(c.Args[1]))
 				continue
-			case t.kind[recv] == "elem" && (m == "SetZero" || m == "SetBigInt" || m == "setBigInt" || m == "FromMont"):
+			case t.kind[recv] == "elem" && (m == "SetZero" || m == "SetBigInt" || m == "setBigInt" || m == "FromMont" || m == "Set" || m == "Square" || m == "Mul" || m == "Exp"):
 				fmt.Fprintf(t.sb, "%slet %s := %s\n", ind, recv, t.elemValue(c))
 				continue
 			case (fn == "binary.BigEndian.PutUint64" || fn == "binary.LittleEndian.PutUint64") && len(c.Args) == 2:
@@ -274,6 +394,30 @@ func (t *codecTr) block(ind string, stmts []ast.Stmt) {
 				}
 			}
 		case *ast.ForStmt:
+			// for i := HI; i >= 0; i-- { BODY }  with BODY assigning exactly one Element variable
+			if init, ok := x.Init.(*ast.AssignStmt); ok && init.Tok == token.DEFINE && len(init.Lhs) == 1 && x.Post != nil {
+				i := exprStr(init.Lhs[0])
+				if cond, ok := x.Cond.(*ast.BinaryExpr); ok && stmtText(x.Post) == i+"--" && cond.Op == token.GEQ && exprStr(cond.X) == i && exprStr(cond.Y) == "0" {
+					hi := t.ex(init.Rhs[0])
+					// the variable the body assigns: receiver of its first statement
+					es, ok := x.Body.List[0].(*ast.ExprStmt)
+					if !ok {
+						t.die("unsupported loop body %s", txt)
+					}
+					fn := exprStr(es.X.(*ast.CallExpr).Fun)
+					z := fn[:strings.LastIndex(fn, ".")]
+					if t.kind[z] != "elem" {
+						t.die("unsupported loop body %s", txt)
+					}
+					t.kind[i] = "int"
+					fmt.Fprintf(t.sb, "%slet %s := Loop.forDown %s 0 %s (fun %s %s =>\n", ind, z, hi, z, i, z)
+					sub := &codecTr{sb: t.sb, fn: t.fn, kind: t.kind, ret: "elem", loopVar: z}
+					sub.block(ind+"    ", append(append([]ast.Stmt{}, x.Body.List...), &ast.ReturnStmt{Results: []ast.Expr{ast.NewIdent(z)}}))
+					fmt.Fprintf(t.sb, "%s  )\n", ind)
+					delete(t.kind, i)
+					continue
+				}
+			}
 			// for i := 0; i < len(w); i++ { z[i] = uint64(w[i]) }
 			if init, ok := x.Init.(*ast.AssignStmt); ok && init.Tok == token.DEFINE && exprStr(init.Rhs[0]) == "0" && len(x.Body.List) == 1 {
 				i := exprStr(init.Lhs[0])
@@ -447,4 +591,66 @@ func translateFrCodec(repo string, write func(name, imports, content string)) {
 	fmt.Fprintf(sb, "def translated : List String := [%s]\n", strings.Join(names, ", "))
 	sb.WriteString("/-- `setBigInt`: only the `bits.UintSize == 64` branch is translated -/\ndef uintSize64Only : Bool := true\n\nend FrCodec\n")
 	write("FrCodec.lean", "import GoIpa.Model.Big\n", sb.String())
+	translateFrMisc(f, write)
+}
+
+// Set, SetOne, Equal, IsZero, Cmp, LexicographicallyLargest, Exp, Legendre -> Gen/FrMisc.lean
+func translateFrMisc(f *ast.File, write func(name, imports, content string)) {
+	sb := &strings.Builder{}
+	sb.WriteString("namespace FrMisc\nopen GoIpa GoIpa.Limbs GoIpa.Gen.FrCodec\n\n")
+	// the Legendre exponent: assigned exactly once, in an init(), from a hexadecimal string
+	var sets []string
+	ast.Inspect(f, func(n ast.Node) bool {
+		if as, ok := n.(*ast.AssignStmt); ok {
+			for _, l := range as.Lhs {
+				if exprStr(l) == "_bLegendreExponentElement" {
+					sets = append(sets, stmtText(as))
+				}
+			}
+		}
+		return true
+	})
+	pre, suf := "_bLegendreExponentElement, _ = new(big.Int).SetString(\"", "\", 16)"
+	if len(sets) != 1 || !strings.HasPrefix(sets[0], pre) || !strings.HasSuffix(sets[0], suf) {
+		die("codec: _bLegendreExponentElement is not set exactly once by SetString(<hex>, 16): %v", sets)
+	}
+	hexs := strings.TrimSuffix(strings.TrimPrefix(sets[0], pre), suf)
+	v, ok := new(big.Int).SetString(hexs, 16)
+	if !ok {
+		die("codec: Legendre exponent %q is not hexadecimal", hexs)
+	}
+	fmt.Fprintf(sb, "def legendreExponent : Int := %s\n\n", v.String())
+
+	type spec struct {
+		name, ret, params, sig string
+		kinds                  map[string]string
+	}
+	specs := []spec{
+		{"Set", "elem", "(z : L4) (x : L4)", "func(x *Element) *Element", map[string]string{"z": "elem", "x": "elem"}},
+		{"SetOne", "elem", "(z : L4)", "func() *Element", map[string]string{"z": "elem"}},
+		{"Equal", "bool", "(z : L4) (x : L4)", "func(x *Element) bool", map[string]string{"z": "elem", "x": "elem"}},
+		{"IsZero", "bool", "(z : L4)", "func() bool", map[string]string{"z": "elem"}},
+		{"Cmp", "int", "(z : L4) (x : L4)", "func(x *Element) int", map[string]string{"z": "elem", "x": "elem"}},
+		{"LexicographicallyLargest", "bool", "(z : L4)", "func() bool", map[string]string{"z": "elem"}},
+		{"Exp", "elem", "(z : L4) (x : L4) (exponent : Int)", "func(x Element, exponent *big.Int) *Element", map[string]string{"z": "elem", "x": "elem", "exponent": "big"}},
+		{"Legendre", "int", "(z : L4)", "func() int", map[string]string{"z": "elem"}},
+	}
+	var names []string
+	for _, sp := range specs {
+		fd := findMethod(f, sp.name)
+		if fd == nil {
+			die("codec: method %s not found", sp.name)
+		}
+		if sig := exprStr(fd.Type); sig != sp.sig || len(fd.Recv.List) != 1 || len(fd.Recv.List[0].Names) != 1 || fd.Recv.List[0].Names[0].Name != "z" {
+			die("codec: %s has signature %s, expected %s", sp.name, sig, sp.sig)
+		}
+		t := &codecTr{sb: sb, fn: sp.name, kind: sp.kinds, ret: sp.ret}
+		ret := map[string]string{"elem": "L4", "bool": "Bool", "int": "Int"}[sp.ret]
+		fmt.Fprintf(sb, "/-- `%s` -/\ndef go_%s %s : %s :=\n", sp.name, sp.name, sp.params, ret)
+		t.block("  ", fd.Body.List)
+		sb.WriteString("\n")
+		names = append(names, leanString(sp.name))
+	}
+	fmt.Fprintf(sb, "def translated : List String := [%s]\n\nend FrMisc\n", strings.Join(names, ", "))
+	write("FrMisc.lean", "import GoIpa.Gen.FrCodec\n", sb.String())
 }
